@@ -139,7 +139,8 @@ def tag(t, **kw):
     return d
 
 
-def rich_values():
+def rich_values(native_only=False):
+    """native_only: just the rich types the encoder writes without consulting any json_default."""
     dates = st.dates().map(lambda d: tag("date", v=[d.year, d.month, d.day]))
     times = st.times().map(lambda t: tag("time", v=[t.hour, t.minute, t.second, t.microsecond]))
     dts = st.datetimes().map(
@@ -158,6 +159,8 @@ def rich_values():
     cplx = st.tuples(finite_floats(), finite_floats()).map(lambda p: tag("complex", v=list(p)))
     nonfinite = st.sampled_from(["nan", "inf", "-inf"]).map(lambda s: tag("float", v=s))
     tuples = st.lists(native_leaves(), max_size=3).map(lambda xs: tag("tuple", v=xs))
+    if native_only:
+        return st.one_of(dates, times, dts, nonfinite, tuples)
     return st.one_of(dates, times, dts, paths, sets, cplx, nonfinite, tuples)
 
 
@@ -181,8 +184,8 @@ def chains():
     )
 
 
-def rich_tree(max_leaves=8, custom=False):
-    leaves = st.one_of(native_leaves(), rich_values(), chains())
+def rich_tree(max_leaves=8, custom=False, native_only=False):
+    leaves = st.one_of(native_leaves(), rich_values(native_only), chains())
     if custom:
         leaves = st.one_of(leaves, native_leaves().map(lambda v: tag("custom", v=v)))
     return st.recursive(
